@@ -191,9 +191,13 @@ basic_content_filter *request::release_content_filter()
 		basic_content_filter *flt = d->filter;
 		d->filter = 0;
 		d->filter_owned = false;
+		d->filter_is_multipart_filter = false;
+		d->filter_is_raw_content_filter = false;
 		return flt;
 	}
 	d->filter = 0;
+	d->filter_is_multipart_filter = false;
+	d->filter_is_raw_content_filter = false;
 	return 0;
 }
 
